@@ -46,6 +46,18 @@ InitConnected == /\ s = Run(InitState(Cfg0), PreC)
                  /\ ok = "ok"
                  /\ hist = PreC
 
+(* connected, a/b registered as 7, subscribed to a/+ (h1): unsubscribe / re-subscribe histories *)
+PreS == Pre \o << [e |-> "api", a |-> [ApiT("Subscribe", <<"a", "+">>, 0, "h1") EXCEPT !.call = "c2"]],
+                  [e |-> "gw",  p |-> [GwAck("SUBACK", "pend", 0) EXCEPT !.mid = 2]] >>
+InitSubscribed == /\ s = Run(InitState(Cfg0), PreS)
+                  /\ obs = Obs0
+                  /\ ok = "ok"
+                  /\ hist = PreS
+Apis_C27u == {ApiT("Unsubscribe", <<"a", "+">>, 0, ""), ApiT("Subscribe", <<"a", "+">>, 1, "h6"), ApiT("Subscribe", AB, 1, "h2"),
+              ApiT("Unsubscribe", AB, 0, "")}
+Gw_C27u == {Gw("UNSUBACK", "pend"), GwAck("SUBACK", "pend", 0), GwRc("SUBACK", "pend", 1),
+            GwPub(0, 0, 7, <<>>, "none"), GwPub(1, 0, 7, <<>>, "any"), GwPub(2, 0, 7, <<>>, "any"), Gw("PUBREL", "any")}
+
 ---- (* C17: publish / subscribe / register under loss, duplication, late and foreign acks *)
 Apis_C17 == {ApiT("Publish", AB, 1, ""), ApiT("Publish", AB, 2, ""), ApiT("Publish", AB, 0, ""),
              ApiT("Subscribe", AB, 1, "h1"), ApiT("Register", AC, 0, ""), ApiT("Unsubscribe", AB, 0, "")}
